@@ -140,6 +140,10 @@ def ensure_facts(cfgs, log=sys.stderr):
             dirs[cfg] = d
             meta = os.path.join(d, "META")
             if os.path.exists(meta):
+                try:
+                    os.utime(base, None)
+                except OSError:
+                    pass
                 res[cfg] = json.load(open(meta))
                 res[cfg]["dir"] = d
                 res[cfg]["cached"] = True
@@ -182,8 +186,11 @@ def ensure_facts(cfgs, log=sys.stderr):
         try:
             fd = os.path.join(CACHE, "facts")
             ds = sorted((os.path.getmtime(os.path.join(fd, x)), x) for x in os.listdir(fd))
-            for _, x in ds[:-6]:
-                if x != th:
+            now = time.time()
+            for mt, x in ds[:-6]:
+                # another analysis (a self-test lane on a scratch worktree) may still be reading a recent set: only sets that have
+                # not been touched for 20 minutes are collected
+                if x != th and now - mt > 1200:
                     shutil.rmtree(os.path.join(fd, x), ignore_errors=True)
         except Exception:
             pass
